@@ -799,13 +799,13 @@ def decompressor_diag(ctx):
 
 def _work_hist(args):
     """pool worker: random two-package histories against the HTAB table TLC printed"""
-    seeds, lines, nsteps, work = args
+    seeds, lines, nsteps, work, fdom = args
     B.load_shapes(work)
     tab, pkgs, prts = H.load_table(lines)
     fails, drifts, nq = [], [], 0
     for sd in seeds:
-        stress = 2 if sd % 29 == 0 else 1 if sd % 5 == 0 else 0
-        case = H.gen_hist(random.Random(sd), tab, pkgs, prts, nsteps if stress < 2 else 30, stress)
+        stress = 2 if sd % 29 == 0 else 1 if sd % 3 == 0 else 0
+        case = H.gen_hist(random.Random(sd), tab, pkgs, prts, nsteps if stress < 2 else 30, stress, fdom)
         nq += len(case["ops"])
         msg = H.run_hist(case, work, drifts.append)
         if msg:
@@ -929,16 +929,19 @@ def _run(ctx, quick, rng, W, nproc, procs, pool, timeout, timing, lap):
     trace_jobs = [procs.apply_async(_work_traces, ((ch, ctx.work),)) for ch in chunks(tseeds, nproc)]
     sseeds = [rng.getrandbits(48) for _ in range(80 if quick else 800)]
     session_jobs = [procs.apply_async(_work_sessions, ((ch, ctx.work),)) for ch in chunks(sseeds, nproc)]
-    hseeds = [rng.getrandbits(48) for _ in range(40 if quick else 500)]
+    hseeds = [rng.getrandbits(48) for _ in range(64 if quick else 600)]
 
     pending = []        # (label, async result)
     n_pkg = 0
 
     # ---- spec -> code (0): two packages open at once, interleaved / repeated queries, mutation, re-open
-    hlines = result("hist", "HTAB")
+    hlines, fdoms = result("hist", ("HTAB", "FDOM"))
     lap("wait_tlc")
+    if not fdoms or set(fdoms[0]) != {"dom", "exc"}:
+        raise core.MachineryError("no FDOM line (fault domain) from the history configuration")
     for ch in chunks(hseeds, nproc):
-        pending.append(("hist", procs.apply_async(_work_hist, ((ch, hlines, 60 if quick else 90, ctx.work),))))
+        pending.append(("hist", procs.apply_async(_work_hist, ((ch, hlines, 60 if quick else 90, ctx.work, fdoms[0]),))))
+    ctx.extra["fault_domain"] = fdoms[0]
     ctx.extra["history_table_lines"] = len(hlines)
 
     # ---- the contents TLC enumerated, with the complete table of expected answers
